@@ -106,8 +106,9 @@ func (el *eventloop) closeConns() {
 }
 
 type connWithCallback struct {
-	c  *conn
-	cb func()
+	c   *conn
+	cb  func()
+	err error // set when the connection could not be registered with the poller
 }
 
 func (el *eventloop) enroll(c net.Conn, addr net.Addr, ctx any) (resCh chan RegisteredResult, err error) {
@@ -196,6 +197,10 @@ func (el *eventloop) enroll(c net.Conn, addr net.Addr, ctx any) (resCh chan Regi
 			return
 		}
 		<-connOpened
+		if ccb.err != nil {
+			resCh <- RegisteredResult{Err: ccb.err}
+			return
+		}
 
 		resCh <- RegisteredResult{Conn: gc}
 	})
@@ -208,6 +213,13 @@ func (el *eventloop) register(a any) error {
 		ccb := a.(*connWithCallback)
 		c = ccb.c
 		defer ccb.cb()
+		err := el.register0(c)
+		if err != nil && !c.opened {
+			// The connection has been closed and released by register0,
+			// let the waiting goroutine know instead of handing it out.
+			ccb.err = err
+		}
+		return err
 	}
 	return el.register0(c)
 }
